@@ -461,6 +461,7 @@ var families = []famInfo{
 	{"separators", "every template x every join kind (default spelling, no decoration) x {default; every single gap set to every gap style; all required gaps set to a style; all gaps set to a style} x header {none, prod}"},
 	{"spellings", "every template (join kinds: small set) x T1 spelling x T2 spelling (full product of 10 x 10 spellings: bare, quoted, db.m, \"default\".m, \"db\".\"m\", db.\"m\", MixedCase, \"MixedCase\", db . m, db.MixedCase) x uniform gap styles x header {none; prod when no reference names a database}"},
 	{"literals", "every template (join kinds: small set) x string literal {'a','read_parquet','from',' from mem ','it''s','--','/*','join cpu',';','FROM \"x\"'} x position {select list, WHERE conjunct} x uniform gap styles x header"},
+	{"cross", "(thorough only) every template (join kinds: small set) x {both tables quoted, db.m, \"db\".\"m\", \"MixedCase\"; literal 'read_parquet','from','it''s','--' in the select list or as WHERE conjunct} x {every single gap set to newline, /*c*/, --c<newline>; uniform} x header"},
 	{"identifiers", "every template (join kinds: small set) x alias of the first select expression {none,h1,Hx,\"H x\",\"from\",valid_from,\"join\"} x column reference style {plain, quoted, Mixed} x keyword case {UPPER, lower, MiXeD} x uniform gap styles x header"},
 }
 
@@ -548,6 +549,32 @@ func enumerate(quick bool, emit func(*query)) {
 					o := opts{JK: jk, Lit: l, LitPos: pos}
 					if q, ok := build(t, o); ok {
 						sepVariants(q, uniform, false, out("literals", hdrFor(o)))
+					}
+				}
+			}
+		}
+	}
+	// 5. (thorough only) cross: decorated queries x every single gap
+	if !quick {
+		cross := []string{"\n", "/*c*/", "--c\n"}
+		for ti := range templates {
+			t := &templates[ti]
+			for _, jk := range small(t) {
+				for _, sp := range []int{1, 2, 4, 7} { // quoted, db.m, "db"."m", "MixedCase": both tables spelled alike
+					o := opts{JK: jk, T1: sp, T2: sp}
+					if !strings.Contains(t.Text, "{T2}") {
+						o.T2 = 0
+					}
+					if q, ok := build(t, o); ok {
+						sepVariants(q, cross, true, out("cross", hdrFor(o)))
+					}
+				}
+				for _, l := range []int{2, 3, 5, 6} { // 'read_parquet', 'from', 'it''s', '--'
+					for _, pos := range []int{litSelect, litWhere} {
+						o := opts{JK: jk, Lit: l, LitPos: pos}
+						if q, ok := build(t, o); ok {
+							sepVariants(q, cross, true, out("cross", hdrFor(o)))
+						}
 					}
 				}
 			}
